@@ -6,6 +6,7 @@ package main
 
 import (
 	"bytes"
+	"fmt"
 	"encoding/json"
 	"os"
 	"path/filepath"
@@ -470,6 +471,9 @@ var advPieces = []string{
 	"# h {.a\"b}", "# h {data-x=\"<\"}", "&lt;b&gt;", "&#60;b&#62;", "&#x3c;b&#x3e;", "&amp;lt;", "&quot;", "&#34;", "&#0;", "&#xD800;", "&#x110000;", "&#99999999;", "\x00", "\xc3", "\xe2\x82", "\xf0\x9f\x98",
 	"[a]: \"><b>\n[a]", "[a]: /u \"\"><b>\"\n[a]", "| <b> | \"x |\n|---|---|\n| \"> | <i> |", "- [ ] <b>", "[^\"><b>]: x\n[^\"><b>]", "~~<b>~~", "a\n: <b>\"", "www.a.b/\"><b>", "http://a.b/<b>\"'", "x@y.z<b>",
 	"\\<b\\>", "\\\"", "<b\nc=\"d\">", "<b c='d\"e'>", "<?x ?>", "<!DOCTYPE x>", "<a><b></a></b>", "</div>", "<div>\n\n</div>", "jav\tascript:", "JaVaScRiPt:alert(1)", "&#106;avascript:x", "java&#x0A;script:x", "javascript&colon;x", "\\j\\avascript\\:x",
+	"# h {data-a=[\"\\\"><a href=\\\"javascript:alert(1)\\\">x</a>\"]}", "# h {data-a=[1,\"a\\\"b\",\"<&>\"] title=[\"\\\" onclick=x y=\\\"\"]}", "# h {title=\"x\xc3\\\" onmouseover=alert(1) y=\xc3\\\"\"}",
+	"<http://a.example/?q=\xc3&b=1>", "<http://a.example/\xe2\x82\"x>", "<m\xf0\x9f@x.y&z>", "[a](/u \"t\xc3\\\"x\")", "![a\xc3&b\xe2\x82<c](u)", "`\xc3<b>`", "\xc3&amp;", "\xf0\x9f\x98<b>", "\xe2\x82\"",
+	"<!-- a --><a href=\"javascript:alert(1)\">x</a><!-- b -->", "<!-- a --!><script>x</script> -->", "a <!--> b --> c", "a <!---> b", "![alt](javascript:alert(1) \"the title\")", "[pic](data:image/pn&#103;;base64,iVBORw0KGgo=)", "![pic](data:image/&#x70;ng;base64,AA==)", "[p](DATA:image/jp\\eg;x)",
 	"data:text/html,<b>", "data:image/svg+xml;base64,x", "DATA:IMAGE/PNG;x", "vbscript:x", "file:///etc", " javascript:x", "\x01javascript:x", "[x]( javascript:x )", "[x](<javascript:x>)", "<javascript:x>", "<vbscript:x>", "<file:x>", "<data:x>",
 }
 
@@ -524,6 +528,20 @@ func DocStream(rng *RNG, n int, f func(kind string, doc []byte)) {
 			k++
 			continue
 		}
+		if rng.Chance(2) { // footnotes defined in one order and referenced in another (the footnote list is SORTED by index)
+			f("fnperm", GenFootnotePerm(rng))
+			k++
+			continue
+		}
+		if rng.Chance(3) { // a truncated UTF-8 lead byte directly in front of a character the writers must escape
+			d := GenAdversarial(rng)
+			if rng.Bool() {
+				d = GenDoc(rng)
+			}
+			f("leadbyte", insertLeadBytes(rng, d))
+			k++
+			continue
+		}
 		if rng.Chance(2) { // a byte-order mark in front of an otherwise ordinary document
 			f("bom", append([]byte("\xef\xbb\xbf"), GenDoc(rng)...))
 			k++
@@ -545,6 +563,64 @@ func DocStream(rng *RNG, n int, f func(kind string, doc []byte)) {
 		}
 		k++
 	}
+}
+
+
+// GenFootnotePerm: n footnotes (2..6, sometimes 13..20) whose definitions are written in one permutation and which are
+// referenced in another (some twice, some inside emphasis / links / containers); SortChildren moves every definition.
+func GenFootnotePerm(rng *RNG) []byte {
+	n := 2 + rng.Intn(5)
+	if rng.Chance(10) {
+		n = 13 + rng.Intn(8)
+	}
+	perm := func() []int {
+		p := make([]int, n)
+		for i := range p {
+			p[i] = i
+		}
+		for i := n - 1; i > 0; i-- {
+			j := rng.Intn(i + 1)
+			p[i], p[j] = p[j], p[i]
+		}
+		return p
+	}
+	var sb strings.Builder
+	for _, i := range perm() {
+		lbl := fmt.Sprintf("[^n%d]", i)
+		switch rng.Intn(6) {
+		case 0:
+			sb.WriteString("*x" + lbl + "* ")
+		case 1:
+			sb.WriteString("[l" + lbl + "](/u) ")
+		case 2:
+			sb.WriteString("w" + lbl + " again" + lbl + " ")
+		default:
+			sb.WriteString("w" + lbl + " ")
+		}
+	}
+	sb.WriteString("\n\n")
+	for _, i := range perm() {
+		pre := []string{"", "", "", "> ", "- "}[rng.Intn(5)]
+		sb.WriteString(fmt.Sprintf("%s[^n%d]: note %d\n", pre, i, i))
+		if pre != "" || rng.Chance(30) {
+			sb.WriteString("\n")
+		}
+	}
+	return []byte(sb.String())
+}
+
+// insertLeadBytes: put a truncated UTF-8 sequence (a lead byte without its continuation bytes) directly in front of
+// some of the characters & " < > ' ` of the document
+func insertLeadBytes(rng *RNG, d []byte) []byte {
+	leads := [][]byte{{0xc3}, {0xe2}, {0xe2, 0x82}, {0xf0}, {0xf0, 0x9f}, {0xf0, 0x9f, 0x98}, {0xdf}}
+	var out []byte
+	for _, c := range d {
+		if (c == '&' || c == '"' || c == '<' || c == '>' || c == '\'' || c == '`') && rng.Chance(35) {
+			out = append(out, leads[rng.Intn(len(leads))]...)
+		}
+		out = append(out, c)
+	}
+	return out
 }
 
 func convertWithExtGFM(src []byte) []byte {
@@ -577,7 +653,7 @@ func releaseMarkdown(c Cfg, m goldmark.Markdown) {
 // the value parser knows (bare word, quoted with escapes, number, bool, null, array, nested object, empty).
 func genDocAttrBlock(rng *RNG) string {
 	keys := []string{"class", "Class", "CLASS", "cLaSs", "id", "ID", "Id", "title", "Title", "lang", "style", "data-x", "DATA-y", "onclick", "x", "a.b", "a:b", "_u", "k-1"}
-	vals := []string{"v", "\"q r\"", "\"e\\\"s\\\\c\"", "\"\"", "1", "-1.5e3", "0x10", "true", "false", "null", "[1,\"x\"]", "[]", "[[1],2]", "{b=c}", "{}", "\"<&>\"", "\"tab\\ty\"", "é"}
+	vals := []string{"v", "\"q r\"", "\"e\\\"s\\\\c\"", "\"\"", "1", "-1.5e3", "0x10", "true", "false", "null", "[1,\"x\"]", "[]", "[[1],2]", "[\"\\\"><b>\"]", "[\"a\\\"b\",\"<&>\"]", "{b=c}", "{}", "\"<&>\"", "\"tab\\ty\"", "é"}
 	n := 1 + rng.Intn(4)
 	var items []string
 	for i := 0; i < n; i++ {
@@ -708,4 +784,17 @@ func NearMissAttrNames() []string {
 	}
 	sort.Strings(out)
 	return out
+}
+
+// convertWithExtGFMOpts: extension.GFM with (xhtml=true) XHTML + Unsafe renderer options
+func convertWithExtGFMOpts(src []byte, xhtml bool) []byte {
+	var b bytes.Buffer
+	opts := []goldmark.Option{goldmark.WithExtensions(extension.GFM)}
+	if xhtml {
+		opts = append(opts, goldmark.WithRendererOptions(html.WithXHTML(), html.WithUnsafe()))
+	}
+	if err := goldmark.New(opts...).Convert(src, &b); err != nil {
+		return []byte("ERROR: " + err.Error())
+	}
+	return b.Bytes()
 }
